@@ -197,7 +197,14 @@ class Builder:
             ins = list(rows)
             if spec.get("ins_seed") is not None:
                 random.Random(spec["ins_seed"]).shuffle(ins)
-            payload = self.db.make_table(name, tags, ins)
+            if spec.get("table_of"):
+                # a second leaf over the same table: own LeafRelation, own Payload, shared Table object
+                if spec["table_of"] not in self.leaf_payloads:
+                    self.build(["leaf", spec["table_of"]])
+                tbl = self.leaf_payloads[spec["table_of"]].from_clause
+                payload = sql.Payload(tbl, columns_available={t: tbl.columns[t.qualified_name] for t in tags})
+            else:
+                payload = self.db.make_table(name, tags, ins)
             self.leaf_payloads[name] = payload
             return eng.make_leaf(set(tags), payload, name=name, min_rows=mn, max_rows=mx)
         if self.counting:
